@@ -371,7 +371,6 @@ class add_node_impl:
             "P_index_was_free": i >= 0 and not old(live(self, i)),
             "P_now_live": live(self, i) and same_obj(d.op, op) and eq(d.parent, parent),
             "P_requested_count": d._num_outs == ite(notNone(num_outs), the(num_outs), 0) and d._num_inps == 0,
-            "no_children_yet": len(d.children) == 0,
             "P_handle_count": eq(result._num_out_ports, num_outs),
             "P_others_keep_their_index": forall(int, lambda j: implies(old(live(self, j)) and j != i, live(self, j) and same_obj(data(self, j), old(data(self, j))))),
             "P_no_other_new": forall(int, lambda j: implies(live(self, j) and j != i, old(live(self, j)))),
